@@ -91,6 +91,41 @@ def s_feeflow(F, res):
         res.add([ok("S-FEEFLOW", key, where(g), "; ".join(why))])
     else:
         res.add([finding("S-FEEFLOW", key, where(g), "the fee applied to the template is not the previous round's reported fee: " + "; ".join(why))])
+    # the evaluation the resolver reports and compares is the compiler's own, untouched: the resolver never builds or edits a
+    # CompiledTx (fee and payload stay the pair the compiler computed together)
+    CT = "tx3_tir::compile::CompiledTx"
+    key1 = "tx3_resolver|the reported evaluation is the compiler's, unmodified"
+    edits = []
+    for f in list(F.fns.values()) + list(F.built.values()):
+        if f["crate"] != "tx3_resolver" or f.get("derived"):
+            continue
+        for bi, si, s in mir.stmts(f):
+            rv = s["rv"]
+            if rv["k"] == "agg" and rv.get("adt") == CT:
+                edits.append((f, s["line"], "builds a CompiledTx of its own"))
+            if any(p[0] == "f" and p[2] == CT for p in s["lhs"]["p"]):
+                edits.append((f, s["line"], "assigns to CompiledTx.%s" % [p[1] for p in s["lhs"]["p"] if p[0] == "f" and p[2] == CT][0]))
+    somes = []
+    for bi, si, s in mir.stmts(g):
+        rv = s["rv"]
+        if rv["k"] == "agg" and rv.get("variant") == "Some" and "CompiledTx" in g["locals"][s["lhs"]["l"]]:
+            somes.append((bi, s))
+    from_compile = True
+    nsome = 0
+    for bi, s in somes:
+        nsome += 1
+        o = mir.provenance(g, du, s["rv"]["ops"][0], transparent_extra=("std::ops::Try::branch",))
+        if not o or not all(x.kind == "call" and x.term.get("trait") == "tx3_tir::compile::Compiler" and x.term.get("method") == "compile" for x in o):
+            from_compile = False
+    if edits:
+        f, line, what = edits[0]
+        res.add([finding("S-FEEFLOW", key1, where(f, line), "%s %s: the fee it reports need no longer be the fee computed from the payload it returns" % (f["path"].split("::")[-1] if not f.get("owner") else f["owner"].split("::")[-1], what))])
+    elif not nsome:
+        raise BrokenCheck("eval_pass returns no Some(evaluation)")
+    elif not from_compile:
+        res.add([finding("S-FEEFLOW", key1, where(g), "an evaluation returned by eval_pass is not the direct result of Compiler::compile")])
+    else:
+        res.add([ok("S-FEEFLOW", key1, where(g), "no CompiledTx aggregate or field assignment in tx3_resolver; %d Some(eval) returns are compile()'s result" % nsome)])
     # Compiler::compile: fee = eval_size_fees(&payload ..) of the returned payload
     c = F.fn("<tx3_cardano::Compiler as tx3_tir::compile::Compiler>::compile")
     du2 = mir.DefUse(c)
